@@ -1,0 +1,22 @@
+//go:build verif
+
+// Machine-checked contracts for package gates (comment-only, build tag `verif`).
+package gates
+
+//@ func GateInstanceFromId(gateId string) (res Gate)
+//@   props C18
+//@   plain
+//@   flag trusted
+//@   ensures true
+
+//@ func NewEvaluateGatesChip(api frontend.API, gates []Gate, numGateConstraints uint64, selectorsInfo SelectorsInfo) (res *EvaluateGatesChip)
+//@   props C16
+//@   circuit sound-only
+//@   ensures res.numGateConstraints == numGateConstraints
+
+//@ func (g *EvaluateGatesChip) EvaluateGateConstraints(vars EvaluationVars) (res []gl.QuadraticExtensionVariable)
+//@   props C15
+//@   circuit
+//@   flag trusted
+//@   requires canonQEs(vars.localConstants) && canonQEs(vars.localWires)
+//@   ensures len(res) == g.numGateConstraints && canonQEs(res)
